@@ -106,6 +106,13 @@ CHECKS["C03"] = dict(cat="model_checking", engine="StCore", ref="§5 C03",
          "cycle of the StCore programs, and for bound variables and counters of 9 type shapes after every cycle, I/O latch, warm/cold restart, "
          "power cycle and access-path write of the RuntimeCycle scripts.",
     note=_ST_NOTE)
+CHECKS["C05"] = dict(cat="exploration", engine="Determinism", ref="§5 C05",
+    tech="TLA+ Determinism trace spec (observations are functions of the program) over recordings from separate OS processes",
+    text="Generated many-name programs (shuffled POUs, types, methods, strings) and RuntimeCycle scripts (tasks, I/O, faults, restarts) are "
+         "compiled to STBC containers and executed in 3 (quick) / 5 (thorough) separate OS processes with different hash seeds, environment "
+         "sizes, working directories and program orders; TLC validates that the container hash and the per-cycle digests (canonical variable "
+         "state, faults, runtime events, output image) do not depend on the process.",
+    note="differential sampling across processes; the specification contributes the invariant and the RuntimeCycle script space")
 NOT_YET = "check not built yet in this round (see DESIGN.md build order); no claim made"
 
 
@@ -139,6 +146,7 @@ def main():
             "add_only": True,
         },
         "engines": [
+            {"name": "Determinism", "path": "spec/Determinism.tla", "serves_properties": ["C05"], "kind_free_text": "TLA+ trace spec; harness sub-command det-child run in several processes"},
             {"name": "StCore", "path": "spec/StCore.tla", "serves_properties": ["C01", "C02", "C03"], "kind_free_text": "TLA+ reference evaluator + lemma instance + trace refinement; harness sub-commands stcore-gen / stcore-run / stwide"},
             {"name": "HirDb", "path": "spec/HirDb.tla", "serves_properties": ["C13"], "kind_free_text": "TLA+ module + MC instance + trace refinement; harness sub-commands hirdb-gen / hirdb-run"},
             {"name": "ResourceThreads", "path": "spec/ResourceThreads.tla", "serves_properties": ["C20"], "kind_free_text": "TLA+ module + MC (safety + liveness) + stream-merging trace refinement; harness sub-command resource-run"},
